@@ -555,6 +555,14 @@ func (d *c09driver) step(s *m9sess) bool {
 			b.subscribed = verb == "SUBSCRIBE"
 		}
 	case "list":
+		if t.Choose(12) == 0 {
+			// the hierarchy-delimiter query: answered by one LIST response with an empty name; what matters here is
+			// that it completes and leaves the connection (and the user's other sessions) usable
+			line := `LIST "" ""`
+			o, _ := d.exec(s, textCmd(d.tag(), line))
+			d.r.Probe("list-delimiter-query")
+			return d.expectStatus(o, line, true)
+		}
 		pat := []string{"*", "%", "Work*", "Work/%", "%/%", "*b", "a%b", "INBOX", "I*X", "W%k", "*/*", "A*e", "%o%", "Work/Sub", "T*p*"}[t.Choose(15)]
 		verb := "LIST"
 		lsub := t.Choose(5) == 0
